@@ -80,7 +80,10 @@ def gen_struct(rnd, depth, pool, allow_var):
                 s = rnd.randrange(1, left + 1) if len(sizes) < 4 else left
                 sizes.append(s)
                 left -= s
-            fields.append(dict(kind="bits", t=t, sizes=sizes, names=["%s_%d" % (name, j) for j in range(len(sizes))], order=["", "<", ">"][rnd.randrange(3)]))
+            # the pieces of one storage unit are declared on one line (#3/5/...) or a leading group followed by one line per piece
+            # (amoco merges a following bitfield line into the open unit only when it declares a single piece)
+            cuts = list(range(rnd.randrange(1, len(sizes)), len(sizes))) if len(sizes) >= 2 and rnd.random() < 0.4 else []
+            fields.append(dict(kind="bits", t=t, sizes=sizes, names=["%s_%d" % (name, j) for j in range(len(sizes))], order=["", "<", ">"][rnd.randrange(3)], cuts=cuts))
         elif allow_var and packed and not union:
             v = rnd.randrange(4)
             if v == 0:
@@ -99,6 +102,24 @@ def gen_struct(rnd, depth, pool, allow_var):
     return dict(name="S%d_%d" % (depth, _ctr[0]), packed=packed and not union, union=union, fields=fields)
 
 
+def gen_varchild(rnd):
+    """a packed structure of variable length (one counted / LEB128 / terminated member among scalars): element type of arrays"""
+    fields = []
+    for k in range(rnd.randrange(0, 3)):
+        fields.append(dict(kind="raw", t="BHIbhi"[rnd.randrange(6)], count=0, order=["", "<", ">"][rnd.randrange(3)], name="v%d" % k))
+    v = rnd.randrange(3)
+    if v == 0:
+        fields.append(dict(kind="cnt", ct="BH"[rnd.randrange(2)], name="vv", order=["", "<", ">"][rnd.randrange(3)]))
+    elif v == 1:
+        fields.append(dict(kind="leb", t="Ii"[rnd.randrange(2)], name="vv"))
+    else:
+        fields.append(dict(kind="var", name="vv"))
+    if rnd.random() < 0.5:
+        fields.append(dict(kind="raw", t="BH"[rnd.randrange(2)], count=0, order="", name="vz"))
+    _ctr[0] += 1
+    return dict(name="V_%d" % _ctr[0], packed=True, union=False, fields=fields)
+
+
 def source(sd):
     lines = []
     for f in sd["fields"]:
@@ -108,7 +129,9 @@ def source(sd):
         elif k == "struct":
             lines.append("%s%s : %s" % (f["sub"]["name"], "*%d" % f["count"] if f["count"] else "", f["name"]))
         elif k == "bits":
-            lines.append("%s*#%s :%s %s" % (f["t"], "/".join(map(str, f["sizes"])), f["order"], "/".join(f["names"])))
+            edges = [0] + list(f.get("cuts") or []) + [len(f["sizes"])]
+            for lo, hi in zip(edges, edges[1:]):
+                lines.append("%s*#%s :%s %s" % (f["t"], "/".join(map(str, f["sizes"][lo:hi])), f["order"], "/".join(f["names"][lo:hi])))
         elif k == "cnt":
             lines.append("s*~%s :%s %s" % (f["ct"], f["order"], f["name"]))
         elif k == "bind":
@@ -179,7 +202,7 @@ def size_of(sd, ps):
 
 
 def has_var(sd):
-    return any(f["kind"] in ("cnt", "bind", "leb", "var") for f in sd["fields"])
+    return any(f["kind"] in ("cnt", "bind", "leb", "var") or (f["kind"] == "struct" and has_var(f["sub"])) for f in sd["fields"])
 
 
 # ---- values and reference packer ---------------------------------------------
@@ -398,6 +421,8 @@ def features(sd, ps):
             fs.add("long")
         elif f["kind"] != "raw":
             fs.add(f["kind"])
+        if f["kind"] == "struct" and has_var(f["sub"]):
+            fs.add("vararray" if f["count"] >= 3 else "varnested")
     if not has_var(sd) and not sd["union"]:
         offs, size = layout(sd, ps)
         tight = sum(field_size(f, ps) for f in sd["fields"])
@@ -417,9 +442,10 @@ def check(case):
         return [(bucket_of_exception("raise:define", x), "%r\n%s" % (x, source(sd)))]
     var = has_var(sd)
     fs_ = features(sd, ps)
-    feat = next((x for x in ("union", "cnt", "bind", "leb", "var", "struct", "bits", "long", "array") if x in fs_), "plain")
+    feat = next((x for x in ("vararray", "varnested", "union", "cnt", "bind", "leb", "var", "struct", "bits", "long", "array") if x in fs_), "plain")
     nested = any(f["kind"] == "struct" for f in sd["fields"])
-    pn = ":packed-nested" if (sd["packed"] and nested) else (":nested-psize" if (nested and ps != struct.calcsize("P")) else "")
+    natural_child = any(f["kind"] == "struct" and not f["sub"]["packed"] for f in sd["fields"])
+    pn = ":packed-nested" if (sd["packed"] and natural_child) else (":nested-psize" if (nested and ps != struct.calcsize("P")) else "")
     src = source(sd).replace("\n", " | ")
     if not var:
         offs, size = layout(sd, ps)
@@ -516,6 +542,10 @@ def run_shard(shard, tier, seed):
         for d in range(rnd.randrange(0, 3)):
             pool.append(gen_struct(rnd, d + 1, pool, False))
         sd = gen_struct(rnd, 0, pool, True)
+        if not sd["union"] and rnd.random() < 0.25:
+            # a packed structure holding (an array of) variable-length packed elements
+            sd["packed"] = True
+            sd["fields"].insert(rnd.randrange(len(sd["fields"]) + 1), dict(kind="struct", sub=gen_varchild(rnd), count=[0, 2, 3, 4][rnd.randrange(4)], name="fv"))
         ps = [4, 8][rnd.randrange(2)]
         vals = gen_values(rnd, sd, ps)
         data = pack_ref(sd, vals, ps)
